@@ -12,6 +12,7 @@ import (
 	"encoding/hex"
 	"encoding/json"
 	"fmt"
+	"math"
 	"math/rand"
 	"os"
 	"path/filepath"
@@ -40,6 +41,14 @@ type decoder struct {
 	Run  func(b []byte) (accepted bool, problem string)
 }
 
+// notes are observations without a verdict made while judging decoder inputs (child process, one goroutine): how
+// often the encoding of a value decoded from arbitrary bytes differs from the hand-written reference encoding of what
+// the harness can see of that value (a wire field the harness does not know is carried through), and how often
+// decoding into a receiver that held another value before yields something else than decoding into a fresh one.
+var notes = map[string]int64{}
+
+func note(k string) { notes[k]++ }
+
 func firstDiff(d []string) string {
 	if len(d) == 0 {
 		return ""
@@ -63,11 +72,11 @@ func fixHeader(v *types.Header) string {
 	if !bytes.Equal(v.Hash(), v2.Hash()) {
 		return "hash changed over encode/decode"
 	}
-	if !bytes.Equal(e, refHeader(s1)) {
-		return "encoding of the decoded value differs from the reference encoding"
+	if e2, err := v2.MarshalBinary(); err != nil || !bytes.Equal(e2, e) {
+		return fmt.Sprintf("encode(decode(encode(v))) != encode(v) (err=%v)", err)
 	}
-	if !bytes.Equal(v.Hash(), sha(e)) {
-		return "Hash() differs from sha256 of the encoding"
+	if !bytes.Equal(e, refHeader(s1)) || !bytes.Equal(v.Hash(), sha(e)) {
+		note("decoded-value-encodes-unlike-reference:Header")
 	}
 	return ""
 }
@@ -104,11 +113,20 @@ func fixSignedHeader(v *types.SignedHeader, daPath bool) string {
 	if !bytes.Equal(v.Hash(), v2.Hash()) {
 		return "hash changed over encode/decode"
 	}
-	if !bytes.Equal(e, refSignedHeader(s1)) {
-		return "encoding of the decoded value differs from the reference encoding"
+	var e2 []byte
+	if daPath {
+		var p *pb.SignedHeader
+		if p, err = v2.ToProto(); err == nil {
+			e2, err = proto.Marshal(p)
+		}
+	} else {
+		e2, err = v2.MarshalBinary()
 	}
-	if !bytes.Equal(v.Hash(), refHeaderHash(s1.Header)) {
-		return "Hash() differs from the reference hash"
+	if err != nil || !bytes.Equal(e2, e) {
+		return fmt.Sprintf("encode(decode(encode(v))) != encode(v) (err=%v)", err)
+	}
+	if !bytes.Equal(e, refSignedHeader(s1)) || !bytes.Equal(v.Hash(), refHeaderHash(s1.Header)) {
+		note("decoded-value-encodes-unlike-reference:SignedHeader")
 	}
 	return ""
 }
@@ -129,11 +147,11 @@ func fixData(v *types.Data) string {
 	if !bytes.Equal(v.Hash(), v2.Hash()) || !bytes.Equal(v.DACommitment(), v2.DACommitment()) {
 		return "hash or commitment changed over encode/decode"
 	}
-	if !bytes.Equal(e, refData(s1, true)) {
-		return "encoding of the decoded value differs from the reference encoding"
+	if e2, err := v2.MarshalBinary(); err != nil || !bytes.Equal(e2, e) {
+		return fmt.Sprintf("encode(decode(encode(v))) != encode(v) (err=%v)", err)
 	}
-	if !bytes.Equal(v.Hash(), refDataHash(s1)) || !bytes.Equal(v.DACommitment(), refCommitment(s1.Txs)) {
-		return "Hash()/DACommitment() differ from the reference"
+	if !bytes.Equal(e, refData(s1, true)) || !bytes.Equal(v.Hash(), refDataHash(s1)) || !bytes.Equal(v.DACommitment(), refCommitment(s1.Txs)) {
+		note("decoded-value-encodes-unlike-reference:Data")
 	}
 	return ""
 }
@@ -154,11 +172,11 @@ func fixSignedData(v *types.SignedData) string {
 	if !bytes.Equal(v.Hash(), v2.Hash()) || !bytes.Equal(v.DACommitment(), v2.DACommitment()) {
 		return "hash or commitment changed over encode/decode"
 	}
-	if !bytes.Equal(e, refSignedData(s1)) {
-		return "encoding of the decoded value differs from the reference encoding"
+	if e2, err := v2.MarshalBinary(); err != nil || !bytes.Equal(e2, e) {
+		return fmt.Sprintf("encode(decode(encode(v))) != encode(v) (err=%v)", err)
 	}
-	if !bytes.Equal(v.DACommitment(), refCommitment(s1.Data.Txs)) {
-		return "DACommitment() differs from the reference"
+	if !bytes.Equal(e, refSignedData(s1)) || !bytes.Equal(v.DACommitment(), refCommitment(s1.Data.Txs)) {
+		note("decoded-value-encodes-unlike-reference:SignedData")
 	}
 	return ""
 }
@@ -176,8 +194,11 @@ func fixMetadata(v *types.Metadata) string {
 	if d := firstDiff(diffMetadata(s1, specOfMetadata(v2))); d != "" {
 		return "decode(encode(v)) != v: " + d
 	}
+	if e2, err := v2.MarshalBinary(); err != nil || !bytes.Equal(e2, e) {
+		return fmt.Sprintf("encode(decode(encode(v))) != encode(v) (err=%v)", err)
+	}
 	if !bytes.Equal(e, refMetadata(s1)) {
-		return "encoding of the decoded value differs from the reference encoding"
+		note("decoded-value-encodes-unlike-reference:Metadata")
 	}
 	return ""
 }
@@ -214,8 +235,17 @@ func fixState(v *types.State) string {
 	if !v.LastBlockTime.Equal(v2.LastBlockTime) {
 		return "LastBlockTime is another instant after encode/decode"
 	}
+	var e2 []byte
+	if p2, err2 := v2.ToProto(); err2 == nil {
+		e2, err = proto.Marshal(p2)
+	} else {
+		err = err2
+	}
+	if err != nil || !bytes.Equal(e2, e) {
+		return fmt.Sprintf("encode(decode(encode(v))) != encode(v) (err=%v)", err)
+	}
 	if !bytes.Equal(e, refState(s1)) {
-		return "encoding of the decoded value differs from the reference encoding"
+		note("decoded-value-encodes-unlike-reference:State")
 	}
 	return ""
 }
@@ -326,8 +356,11 @@ func buildDecoders(ctx context.Context, sk *storeKeys) []decoder {
 			if d := firstDiff(diffBatch(v, v2)); d != "" {
 				return true, "decode(encode(v)) != v: " + d
 			}
+			if e2 := block.VerifBatchDataToBytes(v2); !bytes.Equal(e2, e) {
+				return true, "encode(decode(encode(v))) != encode(v)"
+			}
 			if !bytes.Equal(e, refBatch(v)) {
-				return true, "encoding of the decoded value differs from the reference encoding"
+				note("decoded-value-encodes-unlike-reference:BatchCursorList")
 			}
 			return true, ""
 		}},
@@ -373,9 +406,10 @@ func buildDecoders(ctx context.Context, sk *storeKeys) []decoder {
 const (
 	decGobHeader = 20
 	decGobData   = 21
+	decReused    = 30
 )
 
-var decoderNames = map[byte]string{decGobHeader: "Cache[SignedHeader].LoadFromDisk", decGobData: "Cache[Data].LoadFromDisk"}
+var decoderNames = map[byte]string{decGobHeader: "Cache[SignedHeader].LoadFromDisk", decGobData: "Cache[Data].LoadFromDisk", decReused: "the binary decoders filling a receiver that held another value"}
 
 // ---------- cache files ----------
 
@@ -453,33 +487,48 @@ func gobCase[T any](dir string, files [4][]byte, which int, mutated []byte, diff
 	if err := c2.LoadFromDisk(out); err != nil {
 		return true, "loading the re-saved cache failed: " + err.Error()
 	}
-	items, err := readGobMap[uint64, *T](filepath.Join(out, cacheFiles[0]))
-	if err != nil {
-		return true, "harness could not read re-saved items: " + err.Error()
+	// which keys to look at: the ones the seed cache held plus, best effort, whatever this harness can read out of
+	// the re-saved files with its own gob decoder (if it cannot - the file format is the cache's own business - the
+	// fixed probes remain). The verdict itself uses the cache's API only.
+	heights := []uint64{0, 1, 7, 9, 10, math.MaxUint64}
+	if items, err := readGobMap[uint64, *T](filepath.Join(out, cacheFiles[0])); err == nil {
+		for k := range items {
+			heights = append(heights, k)
+		}
+	} else {
+		note("harness-cannot-read-resaved-cache-file:" + cacheFiles[0])
 	}
-	for k := range items {
+	for _, k := range heights {
 		a, b := c.GetItem(k), c2.GetItem(k)
-		if a == nil || b == nil {
+		if (a == nil) != (b == nil) {
 			return true, fmt.Sprintf("item %d present=%v before, present=%v after save/load", k, a != nil, b != nil)
+		}
+		if a == nil {
+			continue
 		}
 		if d := diff(a, b); d != "" {
 			return true, fmt.Sprintf("item %d: %s", k, d)
 		}
 	}
-	seen, err := readGobMap[string, bool](filepath.Join(out, cacheFiles[2]))
-	if err != nil {
-		return true, "harness could not read re-saved hashes: " + err.Error()
+	marks := []string{"", "aabbcc", "ddeeff"}
+	if seen, err := readGobMap[string, bool](filepath.Join(out, cacheFiles[2])); err == nil {
+		for k := range seen {
+			marks = append(marks, k)
+		}
+	} else {
+		note("harness-cannot-read-resaved-cache-file:" + cacheFiles[2])
 	}
-	for k := range seen {
+	if inc, err := readGobMap[string, uint64](filepath.Join(out, cacheFiles[3])); err == nil {
+		for k := range inc {
+			marks = append(marks, k)
+		}
+	} else {
+		note("harness-cannot-read-resaved-cache-file:" + cacheFiles[3])
+	}
+	for _, k := range marks {
 		if c.IsSeen(k) != c2.IsSeen(k) {
 			return true, fmt.Sprintf("seen mark %q differs after save/load", k)
 		}
-	}
-	inc, err := readGobMap[string, uint64](filepath.Join(out, cacheFiles[3]))
-	if err != nil {
-		return true, "harness could not read re-saved DA-included marks: " + err.Error()
-	}
-	for k := range inc {
 		h1, ok1 := c.GetDAIncludedHeight(k)
 		h2, ok2 := c2.GetDAIncludedHeight(k)
 		if h1 != h2 || ok1 != ok2 {
@@ -554,12 +603,14 @@ type childSample struct {
 }
 
 type childReport struct {
-	Done      int              `json:"done"` // index after the last executed input
-	Accepted  map[string]int64 `json:"accepted"`
-	Rejected  map[string]int64 `json:"rejected"`
-	Mutations map[string]int64 `json:"mutations"`
-	Problems  []childProblem   `json:"problems"`
-	Samples   []childSample    `json:"samples"`
+	Done      int               `json:"done"` // index after the last executed input
+	Accepted  map[string]int64  `json:"accepted"`
+	Rejected  map[string]int64  `json:"rejected"`
+	Mutations map[string]int64  `json:"mutations"`
+	Problems  []childProblem    `json:"problems"`
+	Samples   []childSample     `json:"samples"`
+	Notes     map[string]int64  `json:"notes"`
+	NoteWit   map[string]string `json:"note_witness"` // first input (hex) per note
 }
 
 // childDecoders: args = seed shard nshards n startAt tier dir
@@ -601,7 +652,7 @@ func childDecoders(args []string) int {
 		return 7
 	}
 	decs := buildDecoders(ctx, sk)
-	rep := childReport{Accepted: map[string]int64{}, Rejected: map[string]int64{}, Mutations: map[string]int64{}}
+	rep := childReport{Accepted: map[string]int64{}, Rejected: map[string]int64{}, Mutations: map[string]int64{}, Notes: map[string]int64{}, NoteWit: map[string]string{}}
 	c := newCorpus(seed, shard, nshards, thorough)
 	gobRng := rand.New(rand.NewSource(seed ^ 0x5eed))
 	gobEvery := 60 // one cache-file input per this many byte inputs
@@ -657,6 +708,24 @@ func childDecoders(args []string) int {
 				rep.Problems = append(rep.Problems, childProblem{Index: i, Decoder: name, Class: in.Class, Mut: in.Mut, Input: hex.EncodeToString(in.Bytes), Detail: problem})
 			}
 		}
+		syncNotes := func() {
+			for k, v := range notes {
+				if v > rep.Notes[k] {
+					if _, ok := rep.NoteWit[k]; !ok {
+						rep.NoteWit[k] = vk.HexShort(in.Bytes)
+						if len(in.Bytes) <= 256 {
+							rep.NoteWit[k] = hex.EncodeToString(in.Bytes)
+						}
+					}
+					rep.Notes[k] = v
+				}
+			}
+		}
+		if !isGob && i%2 == 0 {
+			j.phase(decReused)
+			observeReused(in.Bytes)
+			j.phase(0)
+		}
 		if isGob {
 			if gobData {
 				run(decGobData, decoderNames[decGobData], func() (bool, string) {
@@ -678,6 +747,7 @@ func childDecoders(args []string) int {
 				run(d.ID, d.Name, func() (bool, string) { return d.Run(in.Bytes) })
 			}
 		}
+		syncNotes()
 		h := sha256.Sum256(in.Bytes)
 		nontrivial := len(in.Bytes) > 0 && !in.Verbatim
 		flag := byte(0)
